@@ -9,5 +9,6 @@ CONSTANTS
   Sources <- MC_ServerOnly
   ScriptMsgs <- MC_ScriptMsgs
   MaxScript = 0
+  Flaws <- MC_NoFlaws
 INVARIANTS TypeOK X02_ServerAnswerConforms X02_ServerPrefix X02_NoDataUnlessOwed X02_ClientCompleteIsWhole X02_ClientVerdict X02_Delivery X02_EndToEnd X02_HonestFailsOnlyBelow
 CHECK_DEADLOCK FALSE
